@@ -779,3 +779,39 @@ def loop_terms(fn, u, roles=None):
         parts = cand
     key, val, guard, args, tgt, chain = parts[0], parts[1], parts[2], list(parts[3]), parts[4], list(parts[5])
     return chain, key, val, guard, args, tgt
+
+
+def stale_parameter_caches(fn):
+    """Module-level names that `fn` fills from its own parameters only while they are still empty / unset, and reads afterwards:
+         if not CACHE: CACHE.update(f(args))      /      global CACHE; if CACHE is None: CACHE = f(args)
+    The first call's parameters are used by every later call in the process.  Returns [(name, the guarded write)]."""
+    m = fn.module
+    out = []
+    params = set(fn.params)
+    par = parents(fn.node)
+    module_names = set(m.assigns)
+    for n in own_nodes(fn.node):
+        name, value = None, None
+        if isinstance(n, ast.Expr) and isinstance(n.value, ast.Call) and isinstance(n.value.func, ast.Attribute) and n.value.func.attr in ('update', 'add', 'extend', 'append', 'setdefault') and isinstance(n.value.func.value, ast.Name):
+            name, value = n.value.func.value.id, n.value
+        elif isinstance(n, ast.Assign) and len(n.targets) == 1 and isinstance(n.targets[0], ast.Name) and m.rebinds_global(n.targets[0].id):
+            name, value = n.targets[0].id, n.value
+        elif isinstance(n, ast.Assign) and len(n.targets) == 1 and isinstance(n.targets[0], ast.Subscript) and isinstance(n.targets[0].value, ast.Name):
+            name, value = n.targets[0].value.id, n.value
+        if name is None or name not in module_names or name in params:
+            continue
+        if not any(isinstance(x, ast.Name) and x.id in params for x in ast.walk(value)):
+            continue
+        # guarded by a test of the cache itself: `if not CACHE`, `if CACHE is None`, `if len(CACHE) == 0`
+        g = par.get(n)
+        while g is not None and not isinstance(g, ast.If):
+            g = par.get(g)
+        if g is None or not any(n is x for b in g.body for x in ast.walk(b)):
+            continue
+        tnames = {x.id for x in ast.walk(g.test) if isinstance(x, ast.Name)}
+        if name in tnames and not (tnames & params):
+            # and read elsewhere in the function
+            reads = [x for x in own_nodes(fn.node) if isinstance(x, ast.Name) and x.id == name and isinstance(x.ctx, ast.Load) and not any(x is y for y in ast.walk(g.test)) and not any(x is y for y in ast.walk(n))]
+            if reads:
+                out.append((name, n))
+    return out
